@@ -159,9 +159,23 @@ def from_psyir(n):
 
 
 # ---------------------------------------------------------------- interning
+def fixed_names():
+    """Names with run-independent ids (id = position + 1): every intrinsic of the live
+    `IntrinsicCall.Intrinsic` enumeration in its own order, then the argument names the reader's
+    canonicalisation knows.  `Gen/IntrinsicArgs.lean` (c02.gen) refers to these ids."""
+    from psyclone.psyir.nodes import IntrinsicCall
+    names = [i.name.lower() for i in IntrinsicCall.Intrinsic]
+    for extra in ["array", "dim", "mask"]:
+        if extra not in names:
+            names.append(extra)
+    return names
+
+
 class Tables:
     def __init__(self):
         self.ids = {}
+        for n in fixed_names():
+            self.id("name", n)
 
     def id(self, space, s):
         k = (space, s)
